@@ -9,6 +9,7 @@ import (
 	"regexp"
 	"sort"
 	"strings"
+	"verif/internal/b1"
 
 	"verif/internal/chartab"
 	"verif/internal/core"
@@ -50,12 +51,12 @@ type oCase struct {
 
 // driver request/response (one JSON object per line)
 type drvReq struct {
-	Kind  string     `json:"kind"` // pm | opts
-	Text  string     `json:"text,omitempty"`
-	Init  bool       `json:"init,omitempty"`
-	Q     []drvQuery `json:"q,omitempty"`
-	Notes []drvNote  `json:"notes,omitempty"`
-	Skip  []string   `json:"skip,omitempty"`
+	Kind  string      `json:"kind"` // pm | opts
+	Text  string      `json:"text,omitempty"`
+	Init  bool        `json:"init,omitempty"`
+	Q     []drvQuery  `json:"q,omitempty"`
+	Notes []drvNote   `json:"notes,omitempty"`
+	Skip  []string    `json:"skip,omitempty"`
 	Names [][2]string `json:"names,omitempty"`
 }
 type drvQuery struct {
@@ -338,8 +339,8 @@ func C19(c *core.Ctx) {
 	}
 	bound := 0
 	type agg struct {
-		count int
-		first string
+		count  int
+		first  string
 		caseJS []byte
 	}
 	mism := map[string]*agg{}
@@ -435,7 +436,7 @@ func C19(c *core.Ctx) {
 
 	c.AddCount("traces_validated_against_impl", int64(bound))
 	c.AddCount("evaluations", int64(bound))
-	c.Set("rule", "single queries: every (pattern, initial rule, path, rule) of the bounded alphabets; sequences: 3 queries alternating the rule; option behaviours: notation orders of :case/:case:off/:skip replayed on option.Options and through the CLI. Non-trivial: the two case rules answer differently, or the matcher was compiled for / last asked with the other rule")
+	c.Set("rule", "single queries: every (pattern, initial rule, path, rule) of the bounded alphabets; sequences: 3 queries alternating the rule; case-variant paths: programs of MCMatching whose :skip / :map / :conv / :literal names a lower-cased variant of a member path, under both case rules, end to end; option behaviours: notation orders of :case/:case:off/:skip replayed on option.Options and through the CLI. Non-trivial: the two case rules answer differently, or the matcher was compiled for / last asked with the other rule")
 	c.Set("exhaustive", true)
 	if len(cases) > 0 {
 		c.Sample(map[string]any{"pattern": cases[0].Pat.Text(), "init_exact": cases[0].Init, "queries": cases[0].Hist})
@@ -444,6 +445,32 @@ func C19(c *core.Ctx) {
 	}
 	if len(ocases) > 0 {
 		c.Sample(map[string]any{"notations": describeNotes(ocases[len(ocases)/2].Notes), "final_exact": ocases[len(ocases)/2].Exact})
+	}
+
+	// 4b. end to end through the struct walk: notations whose path is a case variant of a real member path
+	// (`:skip a`, `:map A2 a`, `:conv f A2 n.x`, `:literal a 7`) under both case rules - a plain :skip
+	// pattern follows the case rule, :map / :conv / :literal paths never do (Matching.tla ShouldSkip, ExplicitAt).
+	_, wc := mCases(c, 1, func(m *wCase) bool {
+		for _, n := range m.Prog.Notes {
+			p := strings.Join(n.Dst, ".")
+			if n.Pk != "prefix" && n.Pk != "suffix" && p != "" && p != "Nowhere" && strings.ToLower(p) == p {
+				return true
+			}
+		}
+		return false
+	})
+	st := b1.Run(c, mOptions("m19", false), wc, mJudge(func(v *mVerdicts, m *wCase) ([]string, string) {
+		var p []string
+		if v.failed != "" {
+			p = append(p, v.failed)
+		}
+		p = append(p, v.explicit...)
+		p = append(p, v.defaults...)
+		return p, mDescribe(m)
+	}))
+	c.Set("case_variant_path_programs", st.Cases)
+	if st.Cases < 20 {
+		core.Machinery("C19: only %d programs with case-variant notation paths", st.Cases)
 	}
 
 	// 5. verdicts. One replay file per distinct (pattern, rule) class.
